@@ -14,8 +14,19 @@ type ColAuto struct {
 	DataType ColumnType
 }
 
+// maxInferDepth limits the nesting of a column type during inference. The type
+// usually comes from the wire, and inference recurses once per wrapper.
+const maxInferDepth = 16
+
 // Infer and initialize Column from ColumnType.
 func (c *ColAuto) Infer(t ColumnType) error {
+	return c.infer(t, 0)
+}
+
+func (c *ColAuto) infer(t ColumnType, depth int) error {
+	if depth > maxInferDepth {
+		return errors.Errorf("column type is nested deeper than %d levels", maxInferDepth)
+	}
 	if c.Data != nil && !c.Type().Conflicts(t) {
 		// Already ok.
 		c.DataType = t // update subtype if needed
@@ -54,7 +65,7 @@ func (c *ColAuto) Infer(t ColumnType) error {
 		switch t.Base() {
 		case ColumnTypeArray:
 			inner := new(ColAuto)
-			if err := inner.Infer(t.Elem()); err != nil {
+			if err := inner.infer(t.Elem(), depth+1); err != nil {
 				return errors.Wrap(err, "array")
 			}
 			innerValue := reflect.ValueOf(inner.Data)
@@ -68,7 +79,7 @@ func (c *ColAuto) Infer(t ColumnType) error {
 			}
 		case ColumnTypeNullable:
 			inner := new(ColAuto)
-			if err := inner.Infer(t.Elem()); err != nil {
+			if err := inner.infer(t.Elem(), depth+1); err != nil {
 				return errors.Wrap(err, "nullable")
 			}
 			innerValue := reflect.ValueOf(inner.Data)
@@ -82,7 +93,7 @@ func (c *ColAuto) Infer(t ColumnType) error {
 			}
 		case ColumnTypeLowCardinality:
 			inner := new(ColAuto)
-			if err := inner.Infer(t.Elem()); err != nil {
+			if err := inner.infer(t.Elem(), depth+1); err != nil {
 				return errors.Wrap(err, "low cardinality")
 			}
 			innerValue := reflect.ValueOf(inner.Data)
